@@ -74,10 +74,10 @@ pub mod vocab {
     use super::*;
     verus! {
     pub enum Effect {
-        /// a payload from the peer was delivered to a LOCAL actor (its pid)
-        DeliverLocal(u64),
-        /// a call reply from the peer was delivered to a remote-actor proxy (its id)
-        DeliverProxy(u64),
+        /// a payload from the peer was delivered to a LOCAL actor (its pid): which message
+        DeliverLocal(u64, SerializedMessage),
+        /// a call reply from the peer was delivered to a remote-actor proxy (its id): which message
+        DeliverProxy(u64, SerializedMessage),
         /// a reply-forwarding task was spawned
         Spawn,
         /// pid registry lookup
@@ -88,7 +88,7 @@ pub mod vocab {
     }
     pub enum Kind { DeliverLocal, DeliverProxy, Spawn, Lookup, Rest }
     pub open spec fn kind_of(e: Effect) -> Kind {
-        match e { Effect::DeliverLocal(_) => Kind::DeliverLocal, Effect::DeliverProxy(_) => Kind::DeliverProxy, Effect::Spawn => Kind::Spawn, Effect::Lookup(_) => Kind::Lookup, Effect::Rest => Kind::Rest }
+        match e { Effect::DeliverLocal(_, _) => Kind::DeliverLocal, Effect::DeliverProxy(_, _) => Kind::DeliverProxy, Effect::Spawn => Kind::Spawn, Effect::Lookup(_) => Kind::Lookup, Effect::Rest => Kind::Rest }
     }
     }
 }
@@ -96,6 +96,24 @@ pub use vocab::*;
 // @include ../_common/effectlog.rs
 
 verus! {
+/// C20 (peer side): what is delivered is what the wire message said -- same target, variant, arguments, metadata, tag
+pub open spec fn delivery_matches(msg: Option<Msg>, e: Effect) -> bool {
+    match e {
+        Effect::DeliverLocal(p, m) => match (msg, m) {
+            (Some(Msg::Cast(c)), SerializedMessage::Cast { variant, args, metadata }) => p == c.to && variant == c.variant && args == c.what && metadata == c.metadata,
+            (Some(Msg::Call(c)), SerializedMessage::Call { variant, args, reply, metadata }) => p == c.to && variant == c.variant && args == c.what && metadata == c.metadata,
+            _ => false,
+        },
+        Effect::DeliverProxy(rid, m) => match (msg, m) {
+            (Some(Msg::Reply(r)), SerializedMessage::CallReply(tag, what)) => tag == r.tag && what == r.what,
+            _ => false,
+        },
+        _ => true,
+    }
+}
+pub open spec fn deliveries_match(a: Seq<Effect>, b: Seq<Effect>, msg: Option<Msg>) -> bool {
+    forall|i: int| a.len() <= i < b.len() ==> delivery_matches(msg, #[trigger] b[i])
+}
 pub open spec fn authed(a: AuthenticationState) -> bool {
     match a {
         AuthenticationState::AsClient(c) => c is Ok,
@@ -104,7 +122,7 @@ pub open spec fn authed(a: AuthenticationState) -> bool {
 }
 /// every local delivery added after `a` goes to a pid that was advertised to this peer
 pub open spec fn deliveries_only_to(a: Seq<Effect>, b: Seq<Effect>, allowed: Set<u64>) -> bool {
-    forall|i: int| a.len() <= i < b.len() ==> ((#[trigger] b[i]) matches Effect::DeliverLocal(p) ==> allowed.contains(p))
+    forall|i: int| a.len() <= i < b.len() ==> ((#[trigger] b[i]) matches Effect::DeliverLocal(p, _) ==> allowed.contains(p))
 }
 } // verus!
 
@@ -113,7 +131,7 @@ impl ActorCell {
     #[verus_verify(external_body)]
     #[verus_spec(r =>
         with Tracked(log): Tracked<&mut EffectLog>
-        ensures final(log).s == old(log).s.push(Effect::DeliverLocal(self.pid())),
+        ensures final(log).s == old(log).s.push(Effect::DeliverLocal(self.pid(), m)),
     )]
     pub fn send_serialized(&self, m: SerializedMessage) -> Result<(), Opaque> { unimplemented!() }
 }
@@ -122,7 +140,7 @@ impl RemoteRef {
     #[verus_verify(external_body)]
     #[verus_spec(r =>
         with Tracked(log): Tracked<&mut EffectLog>
-        ensures final(log).s == old(log).s.push(Effect::DeliverProxy(self.rid())),
+        ensures final(log).s == old(log).s.push(Effect::DeliverProxy(self.rid(), m)),
     )]
     pub fn send_serialized(&self, m: SerializedMessage) -> Result<(), Opaque> { unimplemented!() }
 }
